@@ -54,9 +54,15 @@ def balanced : List Str → Nat → Bool
     else if x == s ")" then (if d == 0 then false else balanced r (d - 1))
     else false
 
+/-- a word (identifier or keyword, extended identifiers and operator symbols `"+"` included): what a
+    label, a designator or an end name is; punctuation is never "a name that is still present" -/
+def isWord : Str → Bool
+  | c :: _ => c.isAlpha || c == '\\' || c == '"'
+  | [] => false
+
 def insertOk (n : Nat) (a b : List Str) : Bool :=
   match extras a b with
-  | some e => e.all (fun x => x ∈ redundantKeywords || x ∈ a) && e.length ≤ n * perEdit .insert
+  | some e => e.all (fun x => x ∈ redundantKeywords || (isWord x && x ∈ a)) && e.length ≤ n * perEdit .insert
   | none => false
 
 /-- removal of optional elements (`action: remove`): what goes is a redundant keyword, a name
@@ -64,8 +70,8 @@ def insertOk (n : Nat) (a b : List Str) : Bool :=
     after the redundant keyword that follows `end`) -/
 def removeOk (n : Nat) (a b : List Str) : Bool :=
   match extrasP none b a with
-  | some e => e.all (fun px => px.2 ∈ redundantKeywords || px.2 ∈ b ||
-        (match px.1 with | some p => p == s "end" || p ∈ redundantKeywords | none => false))
+  | some e => e.all (fun px => px.2 ∈ redundantKeywords || (isWord px.2 && px.2 ∈ b) ||
+        (isWord px.2 && match px.1 with | some p => p == s "end" || p ∈ redundantKeywords | none => false))
       && e.length ≤ n * perEdit .insert
   | none => false
 
@@ -142,6 +148,28 @@ def onlyTrailingRemoved (a b : List Tok) : Bool :=
   | some e => e.all (fun p => !p.2)
   | none => false
 
+/-- own-line comments with the number of layout tokens between the line break and the comment -/
+def ownLineComments : List Tok → Option Nat → List (Str × Nat)
+  | [], _ => []
+  | t :: r, st =>
+    if t.isCommentLike then
+      (match st with
+       | some n => (t.val, n) :: ownLineComments r none
+       | none => ownLineComments r none)
+    else if t.isCr then ownLineComments r (some 0)
+    else if t.kind == .ws || t.kind == .blank then ownLineComments r (st.map (· + 1))
+    else ownLineComments r none
+
+/-- for the report: the smallest number of layout tokens in front of a removed own-line comment
+    (`0` = the comment started its line, `1` = one indentation token, `2` = more) -/
+def removedOwnLineShape (a b : List Tok) : Nat :=
+  match extras (commentsWithOwnLine b true) (commentsWithOwnLine a true) with
+  | some e =>
+    let vals := (e.filter (·.2)).map (·.1)
+    let ns := (ownLineComments a (some 0)).filterMap fun p => if vals.contains p.1 then some (min p.2 2) else none
+    ns.foldl min 2
+  | none => 2
+
 /-- owners documented to remove trailing comments only -/
 def trailingCommentRemoverOwners : List String :=
   ["vsg.rules.remove_comments_from_end_of_lines_bounded_by_tokens.remove_comments_from_end_of_lines_bounded_by_tokens"]
@@ -200,7 +228,7 @@ def verdicts (f after : List STok) (si : StepIn) (o : StepOut) : Verdicts :=
     else if o.comment then "ok"
     else if si.kind == "fix" && owner ∈ commentWsOwners && ma.map (·.filter (fun c => !isWsChar c)) == mb.map (·.filter (fun c => !isWsChar c)) then "ok"
     else if si.kind == "fix" && owner ∈ trailingCommentRemoverOwners then
-      (if onlyTrailingRemoved a b then "ok" else "ownLineCommentRemoved")
+      (if onlyTrailingRemoved a b then "ok" else s!"ownLineCommentRemoved:ws{removedOwnLineShape a b}")
     else if si.kind == "fix" && owner ∈ commentRemoverOwners && (extras mb ma).isSome then "ok"
     else if (extras mb ma).isSome then "commentLost"
     else if (extras ma mb).isSome then "commentInvented"
